@@ -441,4 +441,4 @@ CHECKS["C15"] = {
 }
 
 _W = "check built and passing before the latest repo fix commits; temporarily withdrawn while its Lean model is updated to the repaired code"
-PENDING.update({})
+PENDING.update({"C09": _W, "C16": _W})
